@@ -41,6 +41,29 @@ type Col struct {
 	PK   bool       `json:"pk,omitempty"`
 	Auto bool       `json:"auto,omitempty"`
 	Opt  bool       `json:"opt,omitempty"`
+	// the other kinds of column type the compiler produces
+	Named string `json:"named,omitempty"` // a type reference that is not Table.column: an alias / !type / enum / union of the application, a type of another application ("Other.Addr"), a name nothing defines
+	Coll  string `json:"coll,omitempty"`  // "set" / "sequence": a collection of Elem
+	Elem  string `json:"elem,omitempty"`  // element type text (a primitive, Table.column, a named type)
+}
+
+// kind of the column type: ref (Table.column), named, coll, prim
+func (c *Col) kind() string {
+	switch {
+	case c.Ref != nil:
+		return "ref"
+	case c.Named != "":
+		return "named"
+	case c.Coll != "":
+		return "coll"
+	}
+	return "prim"
+}
+
+// a non-table type declared in the application
+type TypeDecl struct {
+	Name string `json:"name"`
+	Kind string `json:"kind"` // alias | aliasseq | type | enum | union
 }
 
 type Table struct {
@@ -55,6 +78,8 @@ type Table struct {
 
 type Model struct {
 	Tables []Table `json:"tables"` // declaration order inside each file
+	Types  []TypeDecl `json:"types,omitempty"` // declared in file 0, before the tables
+	Other  bool       `json:"other,omitempty"` // a second application `Other` with a !type Addr follows (file 0)
 	NFiles int     `json:"nfiles"`
 	Pad    []int   `json:"pad"` // blank lines before `DB:` per file
 	Gap    []int   `json:"gap"` // blank lines before table i
@@ -95,6 +120,10 @@ func (c *Col) typeText() string {
 	switch {
 	case c.Ref != nil:
 		s = c.Ref[0] + "." + c.Ref[1]
+	case c.Named != "":
+		s = c.Named
+	case c.Coll != "":
+		s = c.Coll + " of " + c.Elem
 	case c.Prim == "seqint":
 		s = "sequence of int"
 	case c.Prim == "string" && c.Size > 0 && c.Lo > 0:
@@ -124,6 +153,10 @@ func (c *Col) typeText() string {
 
 // render returns the files and, per table / column, the 1-based line it was written on.
 func (m *Model) render() (map[string]string, map[string]int, map[string]int) {
+	return m.renderApp(appName)
+}
+
+func (m *Model) renderApp(appName string) (map[string]string, map[string]int, map[string]int) {
 	files := map[string]string{}
 	tl, cl := map[string]int{}, map[string]int{}
 	for f := 0; f < m.NFiles; f++ {
@@ -140,6 +173,29 @@ func (m *Model) render() (map[string]string, map[string]int, map[string]int) {
 		}
 		w(appName + ":")
 		n := 0
+		if f == 0 {
+			for _, td := range m.Types {
+				switch td.Kind {
+				case "alias":
+					w("    !alias " + td.Name + ":")
+					w("        decimal")
+				case "aliasseq":
+					w("    !alias " + td.Name + ":")
+					w("        sequence of int")
+				case "type":
+					w("    !type " + td.Name + ":")
+					w("        street <: string")
+				case "enum":
+					w("    !enum " + td.Name + ":")
+					w("        red: 1")
+				case "union":
+					w("    !union " + td.Name + ":")
+					w("        int")
+					w("        string")
+				}
+				n++
+			}
+		}
 		for ti, t := range m.Tables {
 			split := t.Part2From > 0 && t.Part2From < len(t.Cols) && t.Part2File != t.File && t.Part2File < m.NFiles
 			cols := t.Cols
@@ -167,6 +223,11 @@ func (m *Model) render() (map[string]string, map[string]int, map[string]int) {
 		}
 		if n == 0 {
 			w("    ...")
+		}
+		if f == 0 && m.Other {
+			w("Other:")
+			w("    !type Addr:")
+			w("        z <: int")
 		}
 		files[fileName(f)] = b.String()
 	}
@@ -234,23 +295,36 @@ type ptable struct {
 }
 
 func project(m *sysl.Module) ([]ptable, string) {
+	p, _, why := projectApp(m, appName)
+	return p, why
+}
+
+// projectApp: the tables of one application as pkg/database reads them, and the number of its non-table types (which
+// the model does not carry: the claim that they have no influence is part of what the correspondence checks)
+func projectApp(m *sysl.Module, appName string) ([]ptable, int, string) {
 	app := m.GetApps()[appName]
 	if app == nil {
-		return nil, "no app"
+		return nil, 0, "no app"
 	}
 	var out []ptable
+	others := 0
 	for tn, ty := range app.GetTypes() {
 		rel := ty.GetRelation()
 		if rel == nil {
-			return nil, "non-table type " + tn
+			others++
+			continue
 		}
 		pt := ptable{name: tn, line: int(ty.GetSourceContext().GetStart().GetLine())} //nolint:staticcheck
 		for cn, c := range rel.GetAttrDefs() {
 			pc := pcol{name: cn, line: int(c.GetSourceContext().GetStart().GetLine()), prim: strings.ToLower(c.GetPrimitive().String())} //nolint:staticcheck
 			if tr := c.GetTypeRef(); tr != nil {
-				pc.ref = tr.GetRef().GetPath()
-				if len(pc.ref) != 2 {
-					return nil, "reference path of length " + fmt.Sprint(len(pc.ref))
+				switch path := tr.GetRef().GetPath(); {
+				case len(path) < 2:
+					pc.prim = "ref1" // a named type, not a foreign key
+				case len(path) == 2:
+					pc.ref = path
+				default:
+					return nil, 0, "reference path of length " + fmt.Sprint(len(path))
 				}
 			}
 			if k := c.GetConstraint(); len(k) > 0 && k[0].GetLength() != nil {
@@ -272,7 +346,7 @@ func project(m *sysl.Module) ([]ptable, string) {
 		out = append(out, pt)
 	}
 	sort.Slice(out, func(i, j int) bool { return out[i].name < out[j].name })
-	return out, ""
+	return out, others, ""
 }
 
 // the projection must be what the abstract model says (otherwise the front end did something this harness does
@@ -305,8 +379,11 @@ func projectionMatches(m *Model, p []ptable, tl, cl map[string]int) string {
 			}
 			if c.Ref == nil {
 				want := c.Prim
-				if want == "seqint" {
+				if want == "seqint" || c.Coll != "" {
 					want = "no_primitive"
+				}
+				if c.Named != "" {
+					want = "ref1"
 				}
 				if want != pc.prim {
 					return "primitive of " + pt.name + "." + pc.name + ": " + pc.prim
@@ -368,6 +445,8 @@ func gPrim(p string) string {
 		return "PInt"
 	case "date":
 		return "PDate"
+	case "ref1":
+		return "PRef1"
 	}
 	return "POther"
 }
@@ -492,11 +571,15 @@ type replay struct {
 	Versions []*Model            `json:"versions"`
 	Files    []map[string]string `json:"files,omitempty"` // the rendered text, for the reader
 	Note     string              `json:"note,omitempty"`
+	// kind apps: several applications in one run
+	Apps  []appVersions `json:"apps,omitempty"`
+	Names []string      `json:"names,omitempty"` // --app-names, in order
 }
 
 type runner struct {
-	c  *common.Ctx
-	cs *common.Cases
+	c   *common.Ctx
+	cs  *common.Cases
+	acs *common.Cases // cases of the several-applications stream
 	// generation only queues the cases; flush compiles all versions with the real parser on several goroutines
 	// (the results do not depend on the schedule) and then judges / prints the cases in generation order
 	collect bool
@@ -580,9 +663,12 @@ func (r *runner) buildNow(m *Model) (*version, string) {
 	if err != nil {
 		return nil, "compile: " + err.Error()
 	}
-	p, why := project(mod)
+	p, others, why := projectApp(mod, appName)
 	if why != "" {
 		return nil, "project: " + why
+	}
+	if others != len(m.Types) {
+		return nil, fmt.Sprintf("project: %d non-table types compiled, %d written", others, len(m.Types))
 	}
 	if why := projectionMatches(m, p, tl, cl); why != "" {
 		return nil, "projection differs: " + why
@@ -624,6 +710,14 @@ func (r *runner) runNow(kind string, models []*Model, note string) {
 			c.Fail("create:unparseable", "creation script is outside the emitted DDL subset: "+perr, rp)
 			return
 		}
+		if i == 0 && kind != "create-unorderable" {
+			for k := range cstmts {
+				if why := syntaxOf(cstmts[k].Pieces); why != "" {
+					c.Fail("create:syntax:"+why, fmt.Sprintf("CREATE TABLE %s of the creation script is not well-formed (%s): %q", cstmts[k].T, why, cstmts[k].RawFull), rp)
+					return
+				}
+			}
+		}
 		cat0, xerr := execAll(newCatalog(), cstmts)
 		if i == 0 {
 			// the creation script of the first version is judged; the later ones are only the base of their delta
@@ -662,6 +756,19 @@ func (r *runner) runNow(kind string, models []*Model, note string) {
 				return
 			}
 			resolveDropFK(dstmts, v.m, next.m)
+			for k := range dstmts {
+				if why := syntaxOf(dstmts[k].Pieces); why != "" && dstmts[k].Kind == "create" {
+					c.Fail("delta:syntax:"+why, fmt.Sprintf("CREATE TABLE %s of the delta script is not well-formed (%s): %q", dstmts[k].T, why, dstmts[k].RawFull), rp)
+					return
+				}
+			}
+			// both paths define a column the same way: what the delta script writes for a column of the new version
+			// (in the CREATE TABLE of an added table, in ADD COLUMN) against the creation script of the new version
+			if nsql, npan := realCreate(next.mod); npan == "" {
+				if nstmts, nerr := parseSQL(nsql); nerr == "" {
+					judgePaths(c, next.m, dstmts, nstmts, rp)
+				}
+			}
 			var derr string
 			if xerr == "" {
 				cat1, derr = execAll(cat0.clone(), dstmts)
@@ -674,6 +781,7 @@ func (r *runner) runNow(kind string, models []*Model, note string) {
 			for _, k := range editKinds(v.m, next.m) {
 				c.Hist("edit:" + k)
 			}
+			kindHist(c, v.m, next.m)
 			if chainOK && chain != nil {
 				var cerr string
 				base := chain.clone()
@@ -707,7 +815,14 @@ func (r *runner) runNow(kind string, models []*Model, note string) {
 			scriptG = "(Some " + gStmts(dstmts, nm) + ")"
 			final = cat1
 		}
-		term := fmt.Sprintf("Case %s %s %s %s %s", gModel(v.proj, nm), newG, gStmts(cstmts, nm), scriptG, gCatalog(final, nm))
+		var texts []string
+		for k := range cstmts {
+			texts = append(texts, gPieces(cstmts[k].Pieces, nm))
+		}
+		for k := range dstmts {
+			texts = append(texts, gPieces(dstmts[k].Pieces, nm))
+		}
+		term := fmt.Sprintf("Case %s %s %s %s %s %s", gModel(v.proj, nm), newG, gStmts(cstmts, nm), scriptG, gCatalog(final, nm), common.GList(texts))
 		sub := replay{Kind: "create", Versions: []*Model{v.m}}
 		if next != nil {
 			sub = replay{Kind: "delta", Versions: []*Model{v.m, next.m}}
@@ -770,19 +885,29 @@ func main() {
 	}
 	c := common.Setup("C16")
 	defer c.Finish()
-	c.Res.Rule = "each case = one relational model (tables with ~pk/~autoinc/sized strings/references, spread over 1-3 files with chosen blank-line layout) compiled from generated Sysl text, or a pair / chain of versions obtained by a random edit script (add/drop/retype column, add/drop table, key and autoincrement changes, add/drop/retarget reference, layout-only change); distinct = distinct abstract version list; non-trivial = creation: at least one reference or more than one file; delta: at least one column-level change between consecutive versions"
+	c.Res.Rule = "each case = one relational model (tables with ~pk/~autoinc/sized strings/references, spread over 1-3 files with chosen blank-line layout) compiled from generated Sysl text, or a pair / chain of versions obtained by a random edit script (add/drop/retype column, add/drop table, key and autoincrement changes, add/drop/retarget reference, layout-only change, change of the kind of a column type - primitive / Table.column / named type (alias, !type, enum, union, type of another application, undefined name) / set or sequence of any of these -, non-table types declared / removed / turned into tables and back), or 2-4 applications each in the old and/or the new module handed to one ProcessModSysls run with a list of application names; distinct = distinct abstract version list; non-trivial = creation: at least one reference or more than one file; delta: at least one column-level change between consecutive versions"
 	header := `From Coq Require Import List NArith PArith Bool. Import ListNotations.
-Require Import Verif.Db.Depth Verif.Db.Script Verif.Db.SqlInterp Verif.Db.Run Verif.Base.Harness.
+Require Import Verif.Db.Depth Verif.Db.Script Verif.Db.SqlInterp Verif.Db.Text Verif.Db.Run Verif.Base.Harness.
 Local Open Scope positive_scope.`
 	footer := `Definition M := Eval vm_compute in mismatches c16_ok cases. Print M.`
 	r := &runner{c: c, cs: c.NewCases("C16", header, "c16_case", footer, 120)}
 	defer r.cs.Close()
+	r.acs = c.NewCases("C16apps", header, "c16_apps_case", `Definition M := Eval vm_compute in mismatches c16_apps_ok cases. Print M.`, 120)
+	defer r.acs.Close()
 
 	if c.Replay != "" {
 		var rp replay
 		if err := common.LoadReplay(c.Replay, &rp); err != nil {
 			fmt.Fprintln(os.Stderr, err)
 			os.Exit(3)
+		}
+		if rp.Kind == "apps" {
+			r.runApps(rp.Apps, rp.Names)
+			fmt.Printf("replay apps: failures=%d\n", len(c.Res.Failures))
+			for _, f := range c.Res.Failures {
+				fmt.Println("  ", f.Key, "-", f.What)
+			}
+			return
 		}
 		r.run(rp.Kind, rp.Versions, rp.Note)
 		for _, v := range rp.Versions {
@@ -810,4 +935,48 @@ Local Open Scope positive_scope.`
 	r.collect = true
 	generate(r)
 	r.flush()
+}
+
+// kindHist records which kinds of column type the pair adds, removes and turns into which (once per pair and label)
+func kindHist(c *common.Ctx, o, n *Model) {
+	set := map[string]bool{}
+	for _, nt := range n.Tables {
+		ot := o.table(nt.Name)
+		for i := range nt.Cols {
+			nc := &nt.Cols[i]
+			switch {
+			case ot == nil:
+				set["kinds:in-added-table:"+nc.kind()] = true
+			case ot.col(nc.Name) == nil:
+				set["kinds:column-added:"+nc.kind()] = true
+			default:
+				if oc := ot.col(nc.Name); oc.kind() != nc.kind() {
+					set["kinds:"+oc.kind()+"->"+nc.kind()] = true
+				}
+			}
+		}
+		if ot != nil {
+			for i := range ot.Cols {
+				if nt.col(ot.Cols[i].Name) == nil {
+					set["kinds:column-dropped:"+ot.Cols[i].kind()] = true
+				}
+			}
+		}
+	}
+	if len(o.Types) != len(n.Types) {
+		set["kinds:non-table-types-changed"] = true
+	}
+	for _, td := range o.Types {
+		if n.table(td.Name) != nil {
+			set["kinds:type-became-table"] = true
+		}
+	}
+	for _, td := range n.Types {
+		if o.table(td.Name) != nil {
+			set["kinds:table-became-type"] = true
+		}
+	}
+	for k := range set {
+		c.Hist(k)
+	}
 }
